@@ -40,6 +40,6 @@ META = dict(
          "(reach_count == refs after every instruction while no instruction ever closed a cycle) is proved as well: on an acyclic "
          "heap every compound with a count > 0 is reachable from a root, the walk completes and equals the counter, and no "
          "instruction leaks a count (SETITEM needs acyclicity for that: un-counting the replaced element cannot reach the container).",
-    note="Sixth round: several scripts on one VM (SYSCALL loader as for contract calls), exceptions across script boundaries with static slots, counter vs walk of all contexts at every step and refs traces against the model (CMulti); finding F58 (stack of a script abandoned by an exception stays counted). The Coq theorems on the counter cover any number of script contexts (C12_refs_never_undercount_multi, C12_refs_exact_acyclic_multi: loader as SYSCALL handler, static slot released at the last context, stack of an abandoned script un-counted = repair F58). The model is hand-written and tied to vm.go by differential execution only. Trusted: model, translator of the tables, "
+    note="Seventh round: contexts are pushed through every VM entry point (LoadScript*, LoadDynamicScript, LoadNEFMethod with/without _initialize and with native callbacks, the contract call with moved arguments, Call); nestings of 1021..1025 built by a mix of them; C12_depth_bounded_all_loaders, C12_run_with_limits. Sixth round: several scripts on one VM (SYSCALL loader as for contract calls), exceptions across script boundaries with static slots, counter vs walk of all contexts at every step and refs traces against the model (CMulti); finding F58 (stack of a script abandoned by an exception stays counted). The Coq theorems on the counter cover any number of script contexts (C12_refs_never_undercount_multi, C12_refs_exact_acyclic_multi: loader as SYSCALL handler, static slot released at the last context, stack of an abandoned script un-counted = repair F58). The model is hand-written and tied to vm.go by differential execution only. Trusted: model, translator of the tables, "
          "Go walk, hooks, Coq kernel/vm_compute, harness and orchestration.",
 )
